@@ -126,6 +126,28 @@ Theorem C17_entrypoints : forall (d : nat) (t : tree) (cwd : loc) (base : pstr) 
 Proof. exact run_entry_ok. Qed.
 Print Assumptions C17_entrypoints.
 
+(* Histories on one long-lived handle.  The arrangement may change between two uses of the same string (a
+   directory inside the root replaced by an outward link, a file by a link, ...).  Whatever was resolved or
+   accepted before, the i-th use touches only link-free locations under the canonical root OF THE TREE CURRENT
+   AT THAT USE: a handle carries no validated-path state (C17_history_stateless: the outcome of a use is a
+   function of its own tree only). *)
+Theorem C17_history_inside : forall (d : nat) (cwd : loc) (base : pstr) (steps : list hstep) (i : nat)
+                                    (t : tree) (ep : entry) (g : guard) (p : pstr) (accs : list access),
+  nth_error steps i = Some (t, ep, p) ->
+  In (ep, g) gen_entry_guards ->
+  nth_error (run_history d cwd gen_table_dirs base steps) i = Some (Ok accs) ->
+  exists rb q, realpath d t cwd base = Ok rb
+    /\ guard_result d t cwd gen_table_dirs base rb g p = Ok q
+    /\ Forall (fun a => (snd a = q \/ snd a = parent q) /\ touch_ok t rb a) accs.
+Proof. exact run_history_ok. Qed.
+Print Assumptions C17_history_inside.
+
+Theorem C17_history_stateless : forall (d : nat) (cwd : loc) (dirs : list comp) (base : pstr) (pre post : list hstep)
+                                       (t : tree) (ep : entry) (p : pstr),
+  nth_error (run_history d cwd dirs base (pre ++ (t, ep, p) :: post)) (length pre) = Some (run_entry d t cwd dirs base ep p).
+Proof. exact run_history_stateless. Qed.
+Print Assumptions C17_history_stateless.
+
 (* The fuel bound is satisfiable: one unit per link in the tree is always enough. *)
 Theorem C17_fuel_sufficient : forall (d : nat) (t : tree) (cwd : loc) (base p : pstr),
   (count_links t <= d)%nat ->
@@ -155,6 +177,16 @@ Theorem C17_legacy_resolver_refuted :
   /\ resolve 3 ex_tree ex_cwd ex_base [16; 2; 15; 14] = Err Security.
 Proof. vm_compute. repeat split. Qed.
 Print Assumptions C17_legacy_resolver_refuted.
+
+(* the same tree after <root>/data was replaced by a link to /w/out (the old directory moved aside) *)
+Definition ex_tree_swapped : tree :=
+  [ ([10], Dir); ([10; 11], Dir); ([10; 11; 3], Link [0; 10; 13]); ([10; 13], Dir); ([10; 13; 18], File); ([10; 13; 14], File) ].
+
+Example C17_history_nonvacuous :
+  run_history 5 ex_cwd gen_table_dirs ex_base
+    [ (ex_tree, EpReadDataFile, [3; 18]); (ex_tree_swapped, EpReadDataFile, [3; 18]); (ex_tree, EpReadDataFile, [3; 18]) ]
+  = [ Ok [(ARead, [10; 11; 3; 18])]; Err Security; Ok [(ARead, [10; 11; 3; 18])] ].
+Proof. vm_compute. reflexivity. Qed.
 
 Example C17_nonvacuous :
   (count_links ex_tree <= 5)%nat
